@@ -230,16 +230,19 @@ CONTRACTS = {
  # ---- load balancing: abs_lec_diff[k] >= |load_k - target_k|
  M + 'loadbalancing_constraints': dict(
     requires=MODEL_OK + ['len(self.model.lec_overload) == self.model.num_lecturers', 'len(self.model.lec_underload) == self.model.num_lecturers',
-                         'len(self.model.abs_lec_diff) == self.model.num_lecturers'],
+                         'len(self.model.abs_lec_diff) == self.model.num_lecturers', ('well-formed-lecturer-quotas', 'forall(k, 0, self.model.num_lecturers, 0 <= self.model.lec_lower_quotas[k] and 0 <= self.model.lec_targets[k] and self.model.lec_targets[k] <= self.model.lec_upper_quotas[k])'),
+                         ('lecturer-constraints-present', 'implies(feas(), forall(k, 0, self.model.num_lecturers, self.model.lec_lower_quotas[k] <= varsum(self.model.lecturer_lists[k]) and varsum(self.model.lecturer_lists[k]) <= self.model.lec_upper_quotas[k]))')],
     defs={'dev_ok': (['k'], 'nu(self.model.abs_lec_diff[k]) >= varsum(self.model.lecturer_lists[k]) - self.model.lec_targets[k]'
                             ' and nu(self.model.abs_lec_diff[k]) >= self.model.lec_targets[k] - varsum(self.model.lecturer_lists[k])')},
     loops={0: dict(invariant=['feas() == (old(feas()) and forall(k, 0, _k, dev_ok(k)))',
                               'len(self.model.lec_overload) == self.model.num_lecturers and len(self.model.lec_underload) == self.model.num_lecturers'])},
     modifies=['self.info_string', 'ghost:feas', 'self.model.lec_overload', 'self.model.lec_underload'],
-    ensures=[('deviation-variables-bound-the-absolute-deviation', 'feas() == (old(feas()) and forall(k, 0, self.model.num_lecturers, dev_ok(k)))')]),
+    ensures=[('deviation-variables-bound-the-absolute-deviation', 'feas() == (old(feas()) and forall(k, 0, self.model.num_lecturers, dev_ok(k)))'),
+             # witness-in-bounds: for every matching feasible before, |load - target| of every lecturer fits the deviation variable's domain [0, upper quota]
+             ('every-feasible-deviation-fits-the-deviation-variable', 'implies(old(feas()), forall(k, 0, self.model.num_lecturers, abs(varsum(self.model.lecturer_lists[k]) - self.model.lec_targets[k]) <= self.model.lec_upper_quotas[k]))')]),
 
  M + 'optimisation_loadmaxbal': dict(
-    requires=['sizes_ok(self.model)', 'self.model.num_lecturers >= 1', 'len(self.model.abs_lec_diff) == self.model.num_lecturers', "not used('lec_max_abs_diff')"],
+    requires=['sizes_ok(self.model)', 'self.model.num_lecturers >= 1', 'len(self.model.abs_lec_diff) == self.model.num_lecturers', "not used('lec_max_abs_diff')", ('deviation-variables-are-bounded', 'implies(feas(), forall(k, 0, self.model.num_lecturers, 0 <= nu(self.model.abs_lec_diff[k]) and nu(self.model.abs_lec_diff[k]) <= self.model.lec_upper_quotas[k]))')],
     defs={'o': ([], "namedvar('lec_max_abs_diff')")},
     loops={0: dict(invariant=['feas() == (old(feas()) and 0 <= nu(o()) and exists(m, 0, self.model.num_lecturers, nu(o()) <= self.model.lec_upper_quotas[m])'
                               ' and forall(m, 0, self.model.num_lecturers, implies(forall(k2, 0, self.model.num_lecturers, self.model.lec_upper_quotas[k2] <= self.model.lec_upper_quotas[m]), nu(o()) <= self.model.lec_upper_quotas[m]))'
@@ -250,22 +253,30 @@ CONTRACTS = {
               'feas() == (old(feas()) and 0 <= nu(o()) and nu(o()) <= self.model.lec_upper_quotas[mx]'
               ' and forall(k, 0, self.model.num_lecturers, nu(o()) >= nu(self.model.abs_lec_diff[k])) and nu(o()) <= solved(o())))'),
              ('one-solve', 'solves() == old(solves()) + 1 and hist(old(solves())) == status()'), ('earlier-history-unchanged', 'forall(u, implies(u < old(solves()), hist(u) == old(hist(u))))'), ('solve-recorded', 'implies(solves() > old(solves()), self.solve_performed) and implies(solves() == old(solves()), self.solve_performed == old(self.solve_performed))'),
-             ('minimises', 'objective() == 0 - nu(o())'), ('name-used', "used('lec_max_abs_diff')")]),
+             ('minimises', 'objective() == 0 - nu(o())'), ('name-used', "used('lec_max_abs_diff')"),
+             # witness-in-bounds: in every valuation feasible before the criterion the largest deviation value fits under the variable's upper bound (the largest upper quota)
+             ('every-feasible-valuation-fits-the-objective-variable', 'implies(old(feas()), forall(mx, 0, self.model.num_lecturers, implies(forall(k2, 0, self.model.num_lecturers, self.model.lec_upper_quotas[k2] <= self.model.lec_upper_quotas[mx]),'
+              ' forall(k, 0, self.model.num_lecturers, 0 <= nu(self.model.abs_lec_diff[k]) and nu(self.model.abs_lec_diff[k]) <= self.model.lec_upper_quotas[mx]))))')]),
 
  M + 'optimisation_loadsumbal': dict(
-    requires=['sizes_ok(self.model)', 'self.model.num_lecturers >= 1', 'len(self.model.abs_lec_diff) == self.model.num_lecturers', "not used('lec_sum_abs_diff')"],
+    requires=['sizes_ok(self.model)', 'self.model.num_lecturers >= 1', 'len(self.model.abs_lec_diff) == self.model.num_lecturers', "not used('lec_sum_abs_diff')", ('deviation-variables-are-bounded', 'implies(feas(), forall(k, 0, self.model.num_lecturers, 0 <= nu(self.model.abs_lec_diff[k]) and nu(self.model.abs_lec_diff[k]) <= self.model.lec_upper_quotas[k]))')],
     defs={'o': ([], "namedvar('lec_sum_abs_diff')")},
+    use_lemmas={'return': [('SUM/le', {'f': 'lam(k, self.model.num_lecturers, nu(self.model.abs_lec_diff[k]))', 'g': 'self.model.lec_upper_quotas', 'n': 'self.model.num_lecturers'}, 'if-applicable'),
+                           ('SUM/nonneg', {'f': 'lam(k, self.model.num_lecturers, nu(self.model.abs_lec_diff[k]))', 'n': 'self.model.num_lecturers'}, 'if-applicable')]},
     modifies=['self.info_string', 'self.solve_performed', 'ghost:feas', 'ghost:val', 'ghost:status', 'ghost:hist', 'ghost:solves', 'ghost:objective', 'ghost:feas_at_solve', 'ghost:used:lec_sum_abs_diff'],
     ensures=[('sum-of-deviations-linked-minimised-frozen',
               'feas() == (old(feas()) and 0 <= nu(o()) and nu(o()) <= Sum(k, len(self.model.lec_upper_quotas), self.model.lec_upper_quotas[k])'
               ' and nu(o()) >= Sum(k, len(self.model.abs_lec_diff), nu(self.model.abs_lec_diff[k])) and nu(o()) <= solved(o()))'),
              ('one-solve', 'solves() == old(solves()) + 1 and hist(old(solves())) == status()'), ('earlier-history-unchanged', 'forall(u, implies(u < old(solves()), hist(u) == old(hist(u))))'), ('solve-recorded', 'implies(solves() > old(solves()), self.solve_performed) and implies(solves() == old(solves()), self.solve_performed == old(self.solve_performed))'),
-             ('minimises', 'objective() == 0 - nu(o())'), ('name-used', "used('lec_sum_abs_diff')")]),
+             ('minimises', 'objective() == 0 - nu(o())'), ('name-used', "used('lec_sum_abs_diff')"),
+             # witness-in-bounds: the sum of the deviation values of every valuation feasible before the criterion lies within the variable's bounds (0 .. sum of the upper quotas)
+             ('every-feasible-valuation-fits-the-objective-variable', 'implies(old(feas()), 0 <= Sum(k, len(self.model.abs_lec_diff), nu(self.model.abs_lec_diff[k]))'
+              ' and Sum(k, len(self.model.abs_lec_diff), nu(self.model.abs_lec_diff[k])) <= Sum(k, len(self.model.lec_upper_quotas), self.model.lec_upper_quotas[k]))')]),
 
  # ---- C04 / C14 / C16: criteria are dispatched in list order; after the first solve that is not Optimal nothing more is solved
  M + 'run_optimisations': dict(
     params={'optimisation_options': ('list', 'crit')},
-    requires=MODEL_OK + ['pairs_ok(self.model)', 'has_vars(self.model.rank_lists)', 'self.model.num_lecturers >= 1', ('partial-assignment-constraints-present', 'implies(feas(), rows_partial(self.model))'),
+    requires=MODEL_OK + ['pairs_ok(self.model)', 'has_vars(self.model.rank_lists)', 'self.model.num_lecturers >= 1', ('partial-assignment-constraints-present', 'implies(feas(), rows_partial(self.model))'), ('deviation-variables-are-bounded', 'implies(feas() and exists(a, 0, len(optimisation_options), optimisation_options[a][0] == Optimisation_options.LOADMAXBAL or optimisation_options[a][0] == Optimisation_options.LOADSUMBAL or optimisation_options[a][0] == Optimisation_options.MINCOSTLSB), forall(k, 0, self.model.num_lecturers, 0 <= nu(self.model.abs_lec_diff[k]) and nu(self.model.abs_lec_diff[k]) <= self.model.lec_upper_quotas[k]))'),
               ('each-criterion-at-most-once', 'forall(a, 0, len(optimisation_options), forall(b, a + 1, len(optimisation_options), optimisation_options[a][0] != optimisation_options[b][0]))'),
               ('criteria-are-members', 'forall(a, 0, len(optimisation_options), 1 <= optimisation_options[a][0] and optimisation_options[a][0] <= 9)'),
               ('extras-are-lists-where-used', 'forall(a, 0, len(optimisation_options), implies(optimisation_options[a][0] == Optimisation_options.GENEROUS or optimisation_options[a][0] == Optimisation_options.GREEDY or optimisation_options[a][0] == Optimisation_options.MINCOST or optimisation_options[a][0] == Optimisation_options.MINSQCOST or optimisation_options[a][0] == Optimisation_options.MINCOSTLSB, optimisation_options[a][1] != None))'),
@@ -275,7 +286,7 @@ CONTRACTS = {
                               'solves() >= old(solves())', 'forall(u, implies(u < old(solves()), hist(u) == old(hist(u))))',
                               'implies(solves() == old(solves()), status() == old(status()))', 'implies(solves() > old(solves()), hist(solves() - 1) == status())',
                               'implies(solves() > old(solves()), self.solve_performed) and implies(solves() == old(solves()), self.solve_performed == old(self.solve_performed))',
-                              ('constraints-only-grow', 'implies(feas(), old(feas()))'), ('partial-assignment-constraints-present', 'implies(feas(), rows_partial(self.model))'),
+                              ('constraints-only-grow', 'implies(feas(), old(feas()))'), ('partial-assignment-constraints-present', 'implies(feas(), rows_partial(self.model))'), ('deviation-variables-are-bounded', 'implies(feas() and exists(a, 0, len(optimisation_options), optimisation_options[a][0] == Optimisation_options.LOADMAXBAL or optimisation_options[a][0] == Optimisation_options.LOADSUMBAL or optimisation_options[a][0] == Optimisation_options.MINCOSTLSB), forall(k, 0, self.model.num_lecturers, 0 <= nu(self.model.abs_lec_diff[k]) and nu(self.model.abs_lec_diff[k]) <= self.model.lec_upper_quotas[k]))'),
                               ('names-used-by-the-criteria-run-so-far', "used('obj_maxsize') == exists(t, 0, _k, optimisation_options[t][0] == Optimisation_options.MAXSIZE) and used('obj_minsize') == exists(t, 0, _k, optimisation_options[t][0] == Optimisation_options.MINSIZE) and used('obj_mincost') == exists(t, 0, _k, optimisation_options[t][0] == Optimisation_options.MINCOST) and used('obj_minsqcost') == exists(t, 0, _k, optimisation_options[t][0] == Optimisation_options.MINSQCOST) and used('lec_max_abs_diff') == exists(t, 0, _k, optimisation_options[t][0] == Optimisation_options.LOADMAXBAL) and used('lec_sum_abs_diff') == exists(t, 0, _k, optimisation_options[t][0] == Optimisation_options.LOADSUMBAL) and used('obj_mincostlsb') == exists(t, 0, _k, optimisation_options[t][0] == Optimisation_options.MINCOSTLSB)")])},
     modifies=['self.info_string', 'self.solve_performed', 'ghost:feas', 'ghost:val', 'ghost:status', 'ghost:hist', 'ghost:solves', 'ghost:objective', 'ghost:feas_at_solve', 'ghost:used:obj_maxsize', 'ghost:used:obj_minsize', 'ghost:used:obj_mincost', 'ghost:used:obj_minsqcost', 'ghost:used:lec_max_abs_diff', 'ghost:used:lec_sum_abs_diff', 'ghost:used:obj_mincostlsb'],
     ensures=[('only-the-last-solve-may-have-failed', 'forall(u, old(solves()), solves() - 1, hist(u) == 1)'),
@@ -293,7 +304,7 @@ CONTRACTS = {
  M + 'run': dict(
     params={'msg': 'bool', 'timeLimit': 'optint', 'threads': 'optint', 'write': 'bool'},
     requires=MODEL_OK + ['pairs_ok(self.model)', 'has_vars(self.model.rank_lists)', 'self.model.num_lecturers >= 1', 'rows_sorted(self.model)',
-              ('pair-variables-are-binary', 'implies(feas(), pairs_binary(self.model))'),
+              ('pair-variables-are-binary', 'implies(feas(), pairs_binary(self.model))'), ('well-formed-lecturer-quotas', 'forall(k, 0, self.model.num_lecturers, 0 <= self.model.lec_lower_quotas[k] and 0 <= self.model.lec_targets[k] and self.model.lec_targets[k] <= self.model.lec_upper_quotas[k])'), ('deviation-variables-are-bounded', 'implies(feas() and exists(a, 0, len(self.optimisation_options), self.optimisation_options[a][0] == Optimisation_options.LOADMAXBAL or self.optimisation_options[a][0] == Optimisation_options.LOADSUMBAL or self.optimisation_options[a][0] == Optimisation_options.MINCOSTLSB), forall(k, 0, self.model.num_lecturers, 0 <= nu(self.model.abs_lec_diff[k]) and nu(self.model.abs_lec_diff[k]) <= self.model.lec_upper_quotas[k]))'),
               'implies(self.extra_constraints[Extra_constraints.STAB], two_sided(self.model) and stab_vars(self.model.pairs) and lists_two_sided(self.model.lecturer_lists))',
               'implies(self.instance_options[Instance_options.PC], len(self.model.project_closures) == self.model.num_projects)',
               ('each-criterion-at-most-once', 'forall(a, 0, len(self.optimisation_options), forall(b, a + 1, len(self.optimisation_options), self.optimisation_options[a][0] != self.optimisation_options[b][0]))'),
